@@ -67,6 +67,19 @@ CLAIMED = {
             "Verify(remember=true) and Ingest of every live leaf set (also with a trailing unused proof hash), Prune of every cached subset, Undo (budget 1) and replacement by NewMapPollardFromRoots "
             "(budget 1). On every reached state every stored position must hold the reference hash, the cached-leaf table must be exactly the remembered set at true positions, the stored positions must "
             "lie between (roots + cached leaves + path siblings) and (that + path ancestors), and every subset of the cached leaves must be proven canonically.", "6 C09"),
+    "C05": ("enc", "exhaustive enumeration of accepted proof encodings per BFS state, applied to fresh replays on every implementation vs reference model",
+            "For every state of the forward search (N<=Nmax) and every non-empty set of live leaves, every encoding of the deletion proof from a closed family (every permutation of the targets, 0-2 trailing "
+            "unused proof hashes, AddProof of every two-part split, GetProofSubset of the all-live proof) that Verify accepts is applied with 0, 1 and 2 additions to fresh replays of the state's history on "
+            "Stump, Pollard, full MapPollard, partial MapPollard (leaves cached beforehand / cached by Verify(remember) of that same encoding / started from bare roots); leaf count and roots must equal the "
+            "reference for exactly the named leaves removed.", "6 C05"),
+    "C14": ("helper", "exhaustive enumeration of target-set pairs / sub-lists / orders per accumulator state vs reference canonical proofs",
+            "For every accumulator state with N<=Nmax: AddProof and GetMissingPositions on every ordered pair of non-empty live leaf sets, GetProofSubset on every target list in every order x every "
+            "sub-list in every order plus every single uncovered want (error expected exactly then), MapPollard.GetMissingPositions + VerifyPartialProof on partial forests for every target set; results "
+            "compared with the reference forest's canonical proofs and path sets, and the completed proofs must verify.", "6 C14"),
+    "C17": ("hist+light+partial+helper", "argument/result snapshotting around every library call inside the exhaustive searches",
+            "The forward+proofs, undo, light-client, partial-forest and proof-helper searches are re-run with every library call wrapped: each caller-owned slice is snapshotted before the call and compared "
+            "after it, each previously returned result is kept with a private copy and compared at the end of every path, and the same block data object is reused across Verify, every instance's Modify, Undo "
+            "and re-apply. Exhaustive within the hosts' bounds.", "6 C17"),
 }
 
 NOT_YET = {
@@ -103,7 +116,7 @@ def main():
             "add_only": True,
         },
         "engines": [
-            {"name": "hist", "path": "/verif/vmc/mc/hist.go", "serves_properties": ["C01", "C02", "C06", "C10"],
+            {"name": "hist", "path": "/verif/vmc/mc/hist.go", "serves_properties": ["C01", "C02", "C06", "C10", "C17"],
              "kind_free_text": "explicit-state breadth-first search over operation histories; every transition is executed on the real implementation and compared with a reference model"},
             {"name": "light", "path": "/verif/vmc/mc/light.go", "serves_properties": ["C07", "C08", "C11"],
              "kind_free_text": "explicit-state breadth-first search over light-client histories (Stump.Update, Proof.Update, Proof.Undo on the real code) against the reference model and a full prover"},
@@ -111,6 +124,10 @@ def main():
              "kind_free_text": "exhaustive enumeration of untrusted input triples over closed alphabets and of complete edit neighbourhoods of honest proofs, executed on the real verifiers; oracle from the reference forest"},
             {"name": "partial", "path": "/verif/vmc/mc/partial.go", "serves_properties": ["C09"],
              "kind_free_text": "explicit-state breadth-first search over operation histories of one partial MapPollard; canonical concrete-state dump as seen-set key; reference model oracle on every state"},
+            {"name": "enc", "path": "/verif/vmc/mc/encodings.go", "serves_properties": ["C05"],
+             "kind_free_text": "per-state exhaustive enumeration of accepted proof encodings applied to fresh replays of the state's history on every implementation"},
+            {"name": "helper", "path": "/verif/vmc/mc/helpers.go", "serves_properties": ["C14", "C17"],
+             "kind_free_text": "exhaustive enumeration of proof-helper inputs per accumulator state against the reference forest"},
             {"name": "geom", "path": "/verif/vmc/mc/geom.go", "serves_properties": ["C16"],
              "kind_free_text": "exhaustive enumeration of the argument space of the pure position functions (bounded heights exhaustive, boundary grid to 63 rows) against the reference geometry"},
         ],
